@@ -3,9 +3,9 @@
    canonical text result. The case reader is the Buffer model itself. *)
 From GD Require Import Base.Prelude Model.Strings Model.Buffer Model.Unreal2Str Model.BufOps.
 From GD Require Import Model.Net Model.Valve Model.ValveShow Model.Master Model.Settings Model.Quake Model.Unreal2.
-From GD Require Import Spec.Rand Spec.ValveSpec Spec.ValveGen Spec.CaseEnc Spec.MasterSpec Spec.QuakeSpec Spec.Unreal2Spec.
+From GD Require Import Spec.Rand Spec.ValveSpec Spec.ValveGen Spec.CaseEnc Spec.MasterSpec Spec.QuakeSpec Spec.Unreal2Spec Spec.GamespySpec.
 From GD Require Import Model.View Gen.CommonImpls Model.ViewInst Spec.ViewSpec.
-From GD Require Import Model.Dispatch Gen.ModulesTable Gen.GamesTable Model.IdCheck.
+From GD Require Import Model.Dispatch Gen.ModulesTable Gen.GamesTable Model.IdCheck Model.Gamespy.
 
 Definition rd_u8 : R N := read_uint true 1.
 Definition rd_u16 : R N := read_uint true 2.
@@ -431,6 +431,45 @@ Definition case_idcheck : R bytes :=
        | o => show_outcome (fun fs => show_list show_fail fs) o
        end).
 
+(* families 41 / 42 / 43: gamespy one / two / three; mode 0 = query, 1 = query_vars *)
+Definition case_gamespy (ver : N) : R bytes :=
+  let* port := rd_u16 in
+  let* mode := rd_u8 in
+  let* ts := rd_tsettings in
+  let* n := rd_script in
+  match ts with
+  | Ok t =>
+      if 1000000 <? ts_retries_or_default t then ret model_abstains
+      else ret (if ver =? 1 then
+                  (if mode =? 0 then show_query show_gs1 (gs1_query port t n) else show_query show_map (gs1_query_vars port t n))
+                else if ver =? 2 then show_query show_gs2 (gs2_query port t n)
+                else (if mode =? 0 then show_query show_gs3 (gs3_query port t n) else show_query show_map (gs3_query_vars port t n)))
+  | o => ret (show_outcome (fun _ => []) o ++ str "|")
+  end.
+
+(* families 141 / 142 / 143: gamespy spec cases: seed -> datagrams | expected | tags *)
+Definition max_len (l : list bytes) : N := fold_left (fun m d => N.max m (lenN d)) l 0.
+Definition case_spec_gamespy (ver : N) : R bytes :=
+  let* seed := rd_u64 in
+  if ver =? 1 then
+    let s := fst (gen_s1 seed) in
+    ret (intercalate (str ",") (map show_hex (s1_script s)) ++ str "|" ++ show_gs1 (s1_expected s) ++ str "|"
+         ++ show_map (s1_vars s) ++ str "|"
+         ++ str "np=" ++ show_N (lenN (s1_players s)) ++ str ";parts=" ++ show_N (lenN (s1_script s))
+         ++ str ";max=" ++ show_N (max_len (s1_script s)))
+  else if ver =? 2 then
+    let s := fst (gen_s2 seed) in
+    ret (show_hex (s2_reply s) ++ str "|" ++ show_gs2 (s2_expected s) ++ str "|" ++ str "|"
+         ++ str "np=" ++ show_N (lenN (s2_players s)) ++ str ";nt=" ++ show_N (lenN (s2_teams s))
+         ++ str ";max=" ++ show_N (lenN (s2_reply s)))
+  else
+    let s := fst (gen_s3 seed) in
+    ret (intercalate (str ",") (map show_hex (s3_script s)) ++ str "|" ++ show_gs3 (s3_expected s) ++ str "|"
+         ++ show_map (s3_vars s) ++ str "|"
+         ++ str "np=" ++ show_N (lenN (s3_players s)) ++ str ";nt=" ++ show_N (lenN (s3_teams s))
+         ++ str ";parts=" ++ show_N (lenN (s3_packets s)) ++ str ";max=" ++ show_N (max_len (s3_packets s))
+         ++ str ";req=" ++ intercalate (str ",") (map show_hex (s3_requests s))).
+
 Definition run_case_R : R bytes :=
   let* fam := rd_u8 in
   if fam =? 1 then case_bufops
@@ -448,7 +487,13 @@ Definition run_case_R : R bytes :=
   else if fam =? 20 then case_quake
   else if fam =? 22 then case_unreal2
   else if fam =? 30 then case_idcheck
+  else if fam =? 41 then case_gamespy 1
+  else if fam =? 42 then case_gamespy 2
+  else if fam =? 43 then case_gamespy 3
   else if fam =? 110 then case_spec_valve
+  else if fam =? 141 then case_spec_gamespy 1
+  else if fam =? 142 then case_spec_gamespy 2
+  else if fam =? 143 then case_spec_gamespy 3
   else if fam =? 114 then case_spec_valve_for
   else if fam =? 115 then case_spec_view
   else if fam =? 116 then case_spec_master
